@@ -4,3 +4,12 @@ open Neutrino.BM
 #print axioms C02_reorg_shape
 #print axioms C02_else_unchanged_partial
 #print axioms C02_unlinked_unchanged
+#print axioms C02_replace_only_heavier_partial
+#print axioms C02_replace_heavier_when_full
+#print axioms C02_adopt_full
+#print axioms C02_adopt_full_reorg
+#print axioms C02_work_monotone_partial
+#print axioms C02_work_monotone_counterexample
+#print axioms C02_replace_only_heavier_counterexample
+#print axioms replace_shape
+#print axioms handle_shape
